@@ -4,12 +4,11 @@ use crate::relation::diseq::DisequalityConstraint;
 use crate::state::constraint::Constraint;
 use crate::engine::Engine;
 use crate::state::User;
-use std::collections::HashSet;
 use std::rc::Rc;
 
 #[derive(Derivative)]
 #[derivative(Debug(bound="U: User"), Clone(bound="U: User"))]
-pub struct ConstraintStore<U, E>(HashSet<Rc<dyn Constraint<U, E>>>)
+pub struct ConstraintStore<U, E>(Vec<Rc<dyn Constraint<U, E>>>)
 where
     U: User,
     E: Engine<U>;
@@ -20,7 +19,7 @@ where
     E: Engine<U>,
 {
     pub fn new() -> ConstraintStore<U, E> {
-        ConstraintStore(HashSet::new())
+        ConstraintStore(Vec::new())
     }
 
     /// Remove irrelevant constraints
@@ -80,21 +79,17 @@ where
                 dropped.push(newc);
                 return dropped;
             }
-            let mut normalized = HashSet::new();
-            for storec in self.0.drain() {
+            let mut normalized = Vec::new();
+            for storec in self.0.drain(..) {
                 // All constraints not subsumed by the new one are carried along
                 match storec.downcast_ref::<DisequalityConstraint<U, E>>() {
                     Some(tree_storec) if tree_newc.subsumes(tree_storec) => dropped.push(storec),
-                    _ => {
-                        normalized.insert(storec);
-                    }
+                    _ => normalized.push(storec),
                 }
             }
             self.0 = normalized;
         }
-        if !self.0.contains(&newc) {
-            self.0.insert(newc);
-        } else {
+        if !self.insert(newc.clone()) {
             dropped.push(newc);
         }
         dropped
@@ -122,11 +117,19 @@ where
     }
 
     pub fn take(&mut self, u: &Rc<dyn Constraint<U, E>>) -> Option<Rc<dyn Constraint<U, E>>> {
-        self.0.take(u)
+        match self.0.iter().position(|c| c == u) {
+            Some(pos) => Some(self.0.remove(pos)),
+            None => None,
+        }
     }
 
     pub fn insert(&mut self, key: Rc<dyn Constraint<U, E>>) -> bool {
-        self.0.insert(key)
+        if self.0.contains(&key) {
+            false
+        } else {
+            self.0.push(key);
+            true
+        }
     }
 
     /// Iterate over constraints that refer to terms in `u`
